@@ -1,6 +1,7 @@
 // C15: evaluation leaves inputs and keys untouched, accepts an output that aliases an input, and uses no randomness.
 #include "gates.hpp"
 #include <sstream>
+#include <thread>
 VH_MAIN_GLOBALS
 using namespace vh;
 
@@ -168,6 +169,42 @@ static void lowlevel(World &w, int reps) {
     delete_LweSample(u2); delete_LweSample(u); delete_LweSample(y); delete_LweSample(x);
 }
 
+// the same snapshots around evaluations that are the FIRST use of the FFT on a freshly created thread (per-thread state is
+// built lazily by whatever call comes first; that construction must not touch keys, inputs or the generator either)
+static void fresh_thread_evaluations(World &w, int reps) {
+    const int n = w.n;
+    LweSample *in = new_gate_bootstrapping_ciphertext_array(3, w.gb);
+    for (int i = 0; i < 3; i++) bootsSymEncrypt(in + i, i & 1, w.sk);
+    KeySnap k0 = w.snap();
+    for (int rep = 0; rep < reps; rep++) {
+        int g = rep % (G_MUX + 1);
+        CtSnap s0 = snap_ct(in, n), s1 = snap_ct(in + 1, n), s2 = snap_ct(in + 2, n);
+        std::string g0 = gen_state();
+        std::vector<uint8_t> res;
+        std::thread t([&] { LweSample *r = new_gate_bootstrapping_ciphertext(w.gb); gate_eval(g, r, in, in + 1, in + 2, 1, w.ck);
+                            res.assign((uint8_t *) r->a, (uint8_t *) (r->a + n)); delete_gate_bootstrapping_ciphertext(r); });
+        t.join();
+        out.evaluations++;
+        int off;
+        std::string op = std::string("boots") + GATES[g].name + "(first-FFT-use-of-a-new-thread)";
+        if (gen_state() != g0) out.viol("untouched:generator-advanced:" + op, J().s("config", w.cfg).s("gate", GATES[g].name));
+        if (!same_ct(in, s0, n, &off) || !same_ct(in + 1, s1, n, &off) || !same_ct(in + 2, s2, n, &off)) out.viol("untouched:input-ciphertext-modified:" + op, J().s("config", w.cfg));
+        cmp_keys(w, k0, w.snap(), op.c_str());
+        // and the result equals the one computed on this (long-lived) thread
+        LweSample *r = new_gate_bootstrapping_ciphertext(w.gb); gate_eval(g, r, in, in + 1, in + 2, 1, w.ck);
+        if (memcmp(r->a, res.data(), 4 * n)) out.viol("untouched:not-deterministic:" + op, J().s("config", w.cfg));
+        delete_gate_bootstrapping_ciphertext(r);
+        char cell[128]; snprintf(cell, sizeof cell, "%s:untouched:fresh-thread:boots%s", w.cfg.c_str(), GATES[g].name); out.cell(cell);
+    }
+    // a low-level entry point as first use as well
+    { std::string g0 = gen_state(); TorusPolynomial *a = new_TorusPolynomial(1024), *r = new_TorusPolynomial(1024); IntPolynomial *ip = new_IntPolynomial(1024);
+      for (int j = 0; j < 1024; j++) { a->coefsT[j] = rng.i32(); ip->coefs[j] = (int32_t) rng.range(-4, 4); }
+      std::thread t([&] { torusPolynomialMultFFT(r, ip, a); }); t.join(); out.evaluations++;
+      if (gen_state() != g0) out.viol("untouched:generator-advanced:torusPolynomialMultFFT(first-FFT-use-of-a-new-thread)", J().s("config", w.cfg));
+      delete_IntPolynomial(ip); delete_TorusPolynomial(r); delete_TorusPolynomial(a); }
+    delete_gate_bootstrapping_ciphertext_array(3, in);
+}
+
 int main(int argc, char **argv) {
     Args args(argc, argv);
     out.open(args.s("out", "-"));
@@ -185,6 +222,7 @@ int main(int argc, char **argv) {
     { char b[96]; snprintf(b, sizeof b, "%s/%s/%s", flavor_name(), backend_name(), lambda ? (lambda <= 80 ? "default80" : "default128") : (ps->name().c_str())); w.cfg = b; }
     gates(w, args.i("reps", 3), lambda == 0);
     lowlevel(w, args.i("lreps", 3));
+    fresh_thread_evaluations(w, args.i("treps", 11));
     out.sample(J().s("config", w.cfg).i("gate_reps", args.i("reps", 3)).s("snapshots", "input ciphertexts (bytes), test polynomial, exponent vector, KS rows (both copies), BK rows, BK FFT image, parameter structs, generator state text"));
     delete_gate_bootstrapping_secret_keyset(w.sk); if (ps) delete ps; if (dp) delete_gate_bootstrapping_parameters(dp);
     out.finish();
